@@ -59,9 +59,9 @@ open_("D6", "C15", "DROP TABLE inside a session destroys the table before commit
 
 # ---- findings: hostile statements (C16) ----
 fixed("D18b", "C16", "01e8bb8", "'*' inside an expression, EXISTS, IN (SELECT ...) and scalar sub-queries reached todo!()/unreachable!() in the evaluator and killed a pool worker", "O-res", "findings/D18b-star-inside-expression-panics.json")
-open_("D18a", "C16", "integer division or modulo by zero panics (types/core.rs:185/195) and kills the worker", "O-res", "division_or_modulo_by_zero", "findings/D18a-division-or-modulo-by-zero-panics.json")
-open_("D18f", "C16", "an expression nested a few thousand levels deep (NOT NOT ..., parentheses) overflows the stack: the process aborts", "O-live:process-died", "nesting_deeper_than_200", "findings/D18f-deeply-nested-expression-overflows-the-stack.json")
-open_("D35", "C16", "INSERT INTO t SELECT * FROM t never returns (the scan sees the rows it inserts)", "O-live:hang", "insert_select_from_same_table", "findings/D35-insert-select-from-same-table-never-returns.json")
+fixed("D18a", "C16", "0cd9259", "integer division or modulo by zero panicked (types/core.rs:185/195) and killed the worker", "O-res", "findings/D18a-division-or-modulo-by-zero-panics.json")
+fixed("D18f", "C16", "445d9f5", "an expression nested a few thousand levels deep (NOT NOT ..., parentheses) or a chain of 600+ operators overflowed the stack: the process aborted", "O-live:process-died", "findings/D18f-deeply-nested-expression-overflows-the-stack.json")
+fixed("D35", "C16", "9ded0d1", "INSERT INTO t SELECT * FROM t never returned (the scan saw the rows it inserted)", "O-live:hang", "findings/D35-insert-select-from-same-table-never-returns.json")
 
 # ---- open findings: plans and indexes (C06) ----
 fixed("J1", "C06", "0093459", "an equi-join lost matching rows when the left input held a NULL in the join column (merge join compared a NULL key as greater than every right key and ran the right input dry)", "O-plan", "findings/J1-equi-join-with-null-join-key-loses-matches.json")
